@@ -77,7 +77,21 @@ func c18GenJSON(t *rapid.T) c18JSONCase {
 		text = []byte(rapid.SampledFrom(c18JSONHostile).Draw(t, "hostile"))
 	case 1, 2:
 		o := jgenOpts{MaxDepth: rapid.IntRange(1, 4).Draw(t, "depth"), MaxWidth: rapid.IntRange(1, 5).Draw(t, "width"), IntsOnly: rapid.Bool().Draw(t, "ints")}
-		text = []byte(jspell(t, jgenValue(t, o, 0, "v"), "p"))
+		v := jgenValue(t, o, 0, "v")
+		switch rapid.IntRange(0, 9).Draw(t, "shape") {
+		case 0:
+			v = jgenWide(t, v, "wide") // 100..300 siblings
+		case 1:
+			// deep nesting: 1..2000 containers
+			for i, d := 0, rapid.SampledFrom([]int{10, 64, 65, 100, 128, 500, 2000}).Draw(t, "deep"); i < d; i++ {
+				if i%3 == 0 {
+					v = jobj("k", v)
+				} else {
+					v = jarr(v)
+				}
+			}
+		}
+		text = []byte(jspell(t, v, "p"))
 	default:
 		o := jgenOpts{MaxDepth: 3, MaxWidth: 3}
 		text = []byte(jspell(t, jgenValue(t, o, 0, "v"), "p"))
